@@ -276,6 +276,8 @@ var seedWitnesses = [][]int{
 	{0, 1, 2, 1, 3, 4, 1, 4},
 	{0, 1, 0, 2, 0, 2, 0, 3, 0, 3, 1, 4, 2, 4, 3, 4},
 	{0, 1, 1, 2, 0, 2},
+	{0, 1, 0, 2, 1, 3, 1, 3, 1, 3, 1, 4, 2, 5, 2, 4, 5, 3},
+	{0, 1, 0, 1, 0, 1, 0, 2, 0, 3, 4, 5, 4, 2, 4, 3, 5, 1},
 }
 
 var famGridSmall = gridSpec{P1: allP1, P2: allP2, P4: []int{0, 1, 3, 4}, P5: []int{2, 3}, SZ: []int{1, 2}}.list()
